@@ -15,6 +15,24 @@ the shared statement generator of format_util does not produce at level 'c12' / 
    round (element `section`, entry `Section`).  Names are drawn with every case shape (lower, UPPER, Capitalised,
    miXed) over the plain names, the names the documented defaults mention (html, body, head) and inline names.
 
+3. LINE SEPARATORS.  A text is "multi-line" whatever its line ends are: LF (Unix), CR LF (Windows) and the bare CR of
+   old Mac files (what an editor hands over when such a file is wrapped) -- alone, mixed in one text, doubled (an
+   empty line), leading and trailing.  Every one of them ends a line of the output (the output then uses the
+   configured output.newline), so every continuation line is subject to the second sentence of the statement.  Hosts:
+   the text `{...}` of an element (block / inline, with and without children), a bare text node, a quoted attribute
+   value, and the text handed over for wrapping (`text` of the config: one string with line ends, a list of lines,
+   a list whose items have line ends themselves).
+
+4. SHORTHAND ATTRIBUTES IN EVERY MULTIPLICITY AND USER ATTRIBUTE MAPS.  `.c` and `..c` (the "multiple" shorthand:
+   jsx writes styleName={styles.c}, vue :class), `#i`, several of them on one element, names that are / are not
+   property keys (`x-y` -> styles['x-y']); plus the non-cosmetic options that re-spell attributes, given by the user:
+   markup.attributes and markup.valuePrefix with plain and starred (`class*`) keys, in every syntax.
+
+5. ONE PARSED TREE, MANY RENDERINGS (a call sequence, see c12.py: tree_reuse_sequences).  emmet.markup.parse gives
+   the tree, emmet.markup.stringify renders it; an editor that previews an abbreviation under several option sets
+   parses once.  The renderings of one tree under option sets that differ in cosmetic options only must carry the
+   same content -- the first sentence of the statement for the two-step route.
+
 Nothing here looks at the library's tables; the names and defaults are the documented ones (see c12_opts.py).
 """
 import re
@@ -273,3 +291,225 @@ def exempted_by_format_skip(abbr, out, opts):
             if t[1] in skip or (recased and t[1].lower() in [s.lower() for s in skip]):
                 return True
     return False
+
+
+# ---------------------------------------------------------------- 3. line separators
+LINE_SEPS = ['\n', '\r\n', '\r']
+SEP_NAMES = {'\n': 'LF', '\r\n': 'CRLF', '\r': 'CR'}
+LINE_WORDS = ['one', 'two', 'three', 'a b', 'x', 'l1', 'some words', 'T-2', 'end.']
+
+
+def join_lines(lines, seps):
+    """lines[0] seps[0] lines[1] seps[1] ... ; a separator beyond the last line is a trailing one."""
+    out = []
+    for k, ln in enumerate(lines):
+        out.append(ln)
+        if k < len(seps):
+            out.append(seps[k])
+    return ''.join(out)
+
+
+def rand_lines_text(rng, sep=None):
+    """2-4 lines of plain words (no '<', no leading blanks: readable by the depth oracle).  Each line end is drawn on
+    its own unless `sep` fixes it, so mixed texts occur; sometimes an empty line, a leading or a trailing line end."""
+    n = rng.randint(2, 4)
+    lines = [rng.choice(LINE_WORDS) for _ in range(n)]
+    seps = [sep or rng.choice(LINE_SEPS) for _ in range(n - 1)]
+    r = rng.random()
+    if r < 0.12:
+        seps.append(sep or rng.choice(LINE_SEPS))                   # trailing line end
+    elif r < 0.2:
+        lines.insert(0, '')                                         # leading line end
+        seps.insert(0, sep or rng.choice(LINE_SEPS))
+    elif r < 0.3:
+        k = rng.randrange(len(seps))
+        seps[k] = seps[k] + (sep or rng.choice(['\n', '\r']))       # an empty line (LF LF, CR CR, LF CR, CRLF CR ...)
+    return join_lines(lines, seps)
+
+
+BREAK_RE = re.compile('\r\n|\r|\n')
+
+
+def respell_breaks(rng, text):
+    return BREAK_RE.sub(lambda m: rng.choice(LINE_SEPS), text)
+
+
+def text_seps(text):
+    """Names of the line ends a text has."""
+    return sorted(set(SEP_NAMES[m.group(0)] for m in BREAK_RE.finditer(text)))
+
+
+# Guarded sub-class (OFF): a line break inside a quoted ATTRIBUTE VALUE under the COSMETIC oracle.  On the unchanged
+# library the formatter writes newline + baseIndent + indentation INSIDE the quotes (push_string treats every value
+# alike), also with output.format off, so output.indent / output.baseIndent / output.newline change the attribute
+# value itself: expand('div>p[data-m="one\ntwo"]{t}') has data-m="one\n\ttwo" by default and data-m="one\n      two"
+# with indent '  ' + baseIndent '    '.  coq/props/C12.v lists "line breaks inside attribute values" as not covered.
+# With the switch off such values are generated for the DEPTH check only (sweep hosts); switch it on to see the
+# cosmetic failures.
+LINE_BREAKS_IN_ATTRIBUTE_VALUES_COSMETIC = False
+
+
+def put_line_texts(rng, stmt, p_new=0.3, p_attr=None):
+    """In place: every multi-line text of the statement gets its line ends re-drawn from LF / CRLF / CR, elements get
+    new multi-line texts with probability p_new (some elements become bare text nodes), some a quoted multi-line
+    attribute value.  Returns the number of multi-line values."""
+    n = 0
+    if p_attr is None:
+        p_attr = 0.08 if LINE_BREAKS_IN_ATTRIBUTE_VALUES_COSMETIC else 0.0
+    for k, (unit, op) in enumerate(stmt):
+        if isinstance(unit, g.Group):
+            n += put_line_texts(rng, unit.items, p_new, p_attr)
+            continue
+        if unit.text is not None and BREAK_RE.search(unit.text):
+            unit.text = respell_breaks(rng, unit.text)
+            n += 1
+        elif rng.random() < p_new:
+            t = rand_lines_text(rng)
+            if rng.random() < 0.25:
+                stmt[k] = (text_node(t, unit.repeat), op)
+            else:
+                unit.text = t
+                unit.self_close = False
+            n += 1
+        u = stmt[k][0]
+        if u.name and rng.random() < p_attr:
+            u.attrs = list(u.attrs) + [(rng.choice(['title', 'data-m']), rand_lines_text(rng), '"')]
+            n += 1
+    return n
+
+
+def rand_wrap_text(rng):
+    """The `text` of the config (text to wrap): a string with line ends, a list of lines, a list whose items have
+    line ends."""
+    k = rng.random()
+    if k < 0.5:
+        return rand_lines_text(rng)
+    if k < 0.75:
+        return [rng.choice(LINE_WORDS) for _ in range(rng.randint(1, 4))]
+    return [rand_lines_text(rng) if rng.random() < 0.6 else rng.choice(LINE_WORDS) for _ in range(rng.randint(1, 3))]
+
+
+def rand_lines_stmt(rng, level):
+    """Statement of the given level with multi-line values in every line-end spelling."""
+    names = g.safe_names()
+    if level != 'depth':
+        names = names + fu.SNIPPET_NAMES[:4]
+    for _ in range(20):
+        st = g.rand_stmt(rng, names, rng.randint(1, 7), max_depth=3, rep_max=3, decorate=fu.decorator(rng, level))
+        if put_line_texts(rng, st):
+            return st
+    return [(g.El(name='p', text='a\rb'), '')]
+
+
+# (line-end spelling of a three-line text) x (host); %s is the text
+SEP_SPELLINGS = [
+    ('LF', 'one\ntwo\nthree'), ('CRLF', 'one\r\ntwo\r\nthree'), ('CR', 'one\rtwo\rthree'),
+    ('LF+CR', 'one\ntwo\rthree'), ('CR+CRLF', 'one\rtwo\r\nthree'), ('CR CR (empty line)', 'one\r\rtwo'),
+    ('LF CR (empty line)', 'one\n\rtwo'), ('trailing CR', 'one\rtwo\r'), ('leading CR', '\rone\rtwo'),
+    ('trailing LF', 'one\ntwo\n'), ('CR only', 'one\r'),
+]
+SEP_HOSTS = ['p{%s}', 'div>p{%s}', 'section>div>p{%s}+p', 'div>{%s}+p', 'div>{%s}', 'ul>li*2>{%s}', 'div>p{%s}>section',
+             'div>p{%s}>em', 'div>p+{%s}', '{%s}+p', '{%s}>p', 'div>a[title="%s"]', 'div>p[data-m="%s"]{t}', 'div>span{%s}',
+             'table>tr>td{%s}*2', '(div>p{%s})*2']
+WRAP_ABBRS = ['div>p', 'ul>li>em', 'ul>li*', 'div>p*', 'section>div>p+p', 'p', 'ul>li*>p', 'div>{x }']
+SEP_OPTION_SETS = [
+    {},
+    {'output.indent': '  ', 'output.baseIndent': '    '},
+    {'output.indent': '    ', 'output.inlineBreak': 1, 'output.formatForce': [], 'output.newline': '\r\n'},
+    {'output.formatLeafNode': True, 'output.indent': '  '},
+]
+
+
+def line_separator_sweep():
+    """Every line-end spelling x every host (inline text, text node, attribute value) and x the wrap-text route (one
+    string; the list of its lines; a list with the string as one item), option sets and syntaxes rotating.
+    Deterministic.  Yields (abbr, text-of-the-config or None, options, spelling name)."""
+    k = 0
+    for nm, text in SEP_SPELLINGS:
+        for host in SEP_HOSTS:
+            k += 1
+            yield host % text, None, dict(SEP_OPTION_SETS[k % len(SEP_OPTION_SETS)]), nm
+        for j, abbr in enumerate(WRAP_ABBRS):
+            k += 1
+            wrap = [text, BREAK_RE.split(text), [text, 'last']][(k + j) % 3]
+            yield abbr, wrap, dict(SEP_OPTION_SETS[k % len(SEP_OPTION_SETS)]), nm
+
+
+# ---------------------------------------------------------------- 4. shorthand attributes, user attribute maps
+SHORT_CLASSES = ['foo', 'bar', 'c', 'item', 'x-y', 'a-b', 'k1', 'for', 'T']
+# user-given maps of markup.attributes / markup.valuePrefix (documented options: "attribute name -> name to write" and
+# "attribute name -> prefix of its value"; a key with `*` applies to the multiple shorthand `..c` / `##i`)
+USER_ATTR_MAPS = [{'class': 'klass'}, {'class*': 'styleName'}, {'class': 'className', 'class*': ':class', 'id': 'key'},
+                  {'title': 'data-title'}, {'id*': 'ref'}]
+USER_PREFIX_MAPS = [{'class*': 'styles'}, {'class': 'css'}, {'class*': 'st', 'id': 'ids'}, {'class': 'a', 'class*': 'b'},
+                    {'id*': 'refs'}, {'title': 't'}]
+
+
+def put_shorthands(rng, stmt, p=0.6):
+    """In place: elements get class / id shorthands in every multiplicity (`.c`, `..c`, `.a..b`, `..a..b`, `#i`,
+    `##i`), rendered through El.classes / El.id (a class entry that starts with '.' renders as `..c`)."""
+    n = 0
+    for unit, _ in stmt:
+        if isinstance(unit, g.Group):
+            n += put_shorthands(rng, unit.items, p)
+            continue
+        if rng.random() >= p:
+            continue
+        cl = []
+        for _k in range(rng.choice([1, 1, 1, 2, 2, 3])):
+            c = rng.choice(SHORT_CLASSES)
+            cl.append('.' + c if rng.random() < 0.55 else c)
+        unit.classes = cl
+        r = rng.random()
+        if r < 0.15:
+            unit.id = rng.choice(['i', 'main', 'x-1'])
+        elif r < 0.25:
+            unit.id = '#' + rng.choice(['i', 'main', 'x-1'])
+        if rng.random() < 0.1 and unit.name and unit.name not in ('p',):
+            unit.name = None            # `..c` alone: implicit name
+        n += 1
+    return n
+
+
+def rand_shorthand_stmt(rng, level='c12'):
+    names = g.safe_names()
+    if level != 'depth':
+        names = names + fu.SNIPPET_NAMES[:4]
+    for _ in range(20):
+        st = g.rand_stmt(rng, names, rng.randint(1, 6), max_depth=3, rep_max=3, decorate=fu.decorator(rng, level))
+        if put_shorthands(rng, st):
+            return st
+    return [(g.El(name='div', classes=['.foo']), '')]
+
+
+def rand_attr_maps(rng, syntax):
+    """Non-cosmetic options that re-spell attributes: nothing (the documented preset of the syntax: jsx, vue have
+    one), a user map of names, a user map of value prefixes, both."""
+    o = {}
+    r = rng.random()
+    if syntax in ('jsx', 'vue') and r < 0.5:
+        return o
+    if r < 0.75 or rng.random() < 0.5:
+        o['markup.valuePrefix'] = dict(rng.choice(USER_PREFIX_MAPS))
+    if r >= 0.6:
+        o['markup.attributes'] = dict(rng.choice(USER_ATTR_MAPS))
+    return o
+
+
+SHORTHAND_SKELETONS = ['%(a)s>%(b)s', '%(a)s>%(b)s*2>%(c)s', '%(a)s>%(b)s+%(c)s', '(%(a)s>%(b)s)*2', '%(a)s>%(b)s{t}', '%(a)s+%(b)s>%(c)s']
+SHORTHAND_UNITS = ['div..%s', 'p.%s', 'span..%s..k', 'li.a..%s.c', '..%s', 'em##%s', 'section#i..%s', 'img..%s/', 'div..%s[title=v]']
+
+
+def shorthand_sweep():
+    """Skeletons x shorthand units (single / multiple class and id shorthands, mixed, with implicit name, on a
+    self-closed element, next to a bracket attribute) x class names.  Deterministic.  Yields abbreviations."""
+    k = 0
+    for sk in SHORTHAND_SKELETONS:
+        for j in range(len(SHORTHAND_UNITS)):
+            k += 1
+            u = [SHORTHAND_UNITS[(j + d * (k % 3 + 1)) % len(SHORTHAND_UNITS)] % SHORT_CLASSES[(k + d) % len(SHORT_CLASSES)] for d in range(3)]
+            if '/' in u[0]:
+                u[0], u[2] = u[2], u[0]
+            if '/' in u[1] and ('%(c)s' in sk.split('%(b)s')[1][:3] or '{' in sk):
+                u[1] = u[1].rstrip('/')
+            yield sk % {'a': u[0], 'b': u[1], 'c': u[2]}
